@@ -5,6 +5,7 @@ From Coq Require Import ZArith String Lia.
 From KV Require Import Bytes BytesProofs Spec Memtable WalCodec Engine EngineProofs Iter IterProofs ScanSpec ScanProofs Service.
 From KV.gen Require Import ServiceLimits.
 Open Scope N_scope.
+Open Scope list_scope.
 Local Notation find := Memtable.find.
 
 (* ------------------------------------------------------------------------------------ *)
@@ -603,3 +604,278 @@ Example scan_semantics_ex :
      PRows [([97;97],[6]); ([97;98],[]); ([98;97],[3]); ([99;97;98],[5])];
      PRows [([97;97],[6])]].
 Proof. vm_compute. reflexivity. Qed.
+
+(* ------------------------------------------------------------------------------------ *)
+(* Part E: the service simulates the embedded API                                         *)
+(* ------------------------------------------------------------------------------------ *)
+
+(* The embedded API, specified over the history of acknowledged writes (Spec.v): a read returns
+   the latest write, a scan the live keys of the selected set, a transaction sees the history
+   with its own operations on top and commits them as one batch; transactions are objects the
+   caller holds (here: the same table of open transactions, without the notion of an unknown
+   one) and share the transaction lock. No sizes, no wire. *)
+Record astate := mkAS { a_hist : list wop; a_reg : list (N * txrec); a_next : N; a_info : option provider }.
+
+Definition a_rw_open (a : astate) : bool := existsb (fun x => is_rw (snd x)) (a_reg a).
+Definition a_any_open (a : astate) : bool := match a_reg a with [] => false | _ => true end.
+Definition a_write (a : astate) (w : list wop) : astate := mkAS (a_hist a ++ w) (a_reg a) (a_next a) (a_info a).
+Definition a_set_reg (a : astate) (r : list (N * txrec)) : astate := mkAS (a_hist a) r (a_next a) (a_info a).
+Definition a_find (a : astate) (h : handle) : option (N * txrec) :=
+  match h with
+  | HId n => match reg_find n (a_reg a) with Some t => Some (n, t) | None => None end
+  | HBad _ => None
+  end.
+
+(* Commit: the buffered operations, last one per key, as one batch; nothing when there are none *)
+Definition commit_w (b : list bop) : list wop :=
+  match buffer_ops b with [] => [] | bo => [WBatch bo] end.
+
+Definition embedded_step (a : astate) (q : request) : astate * response :=
+  match q with
+  | QGet k => (a, PValue (spec_get (a_hist a) k))
+  | QPut k v _ => (a_write a [WPut k v], POk)
+  | QDelete k _ => (a_write a [WDel k], POk)
+  | QBatch ops _ =>                      (* BeginTransaction(false); Put/Delete ...; Commit *)
+      match ops with
+      | [] => (a, POk)
+      | _ => if a_any_open a then (a, PBlocked) else (a_write a (commit_w (map bop_of ops)), POk)
+      end
+  | QScan o => if a_rw_open a then (a, PBlocked) else (a, PRows (spec_rows (a_hist a) [] o))
+  | QBegin ro =>
+      if (if ro then a_rw_open a else a_any_open a) then (a, PBlocked)
+      else let id := a_next a + 1 in
+           (mkAS (a_hist a) (a_reg a ++ [(id, mkTxr (if ro then MRO else MRW) [])]) id (a_info a), PBegun id)
+  | QCommit h =>
+      match a_find a h with
+      | None => (a, PErr ENoTx)
+      | Some (id, t) =>
+        let a1 := a_set_reg a (reg_remove id (a_reg a)) in
+        (if is_rw t then a_write a1 (commit_w (t_buf t)) else a1, POk)
+      end
+  | QRollback h =>
+      match a_find a h with
+      | None => (a, PErr ENoTx)
+      | Some (id, _) => (a_set_reg a (reg_remove id (a_reg a)), POk)
+      end
+  | QTxGet h k =>
+      match a_find a h with
+      | None => (a, PErr ENoTx)
+      | Some (_, t) => (a, PValue (spec_get (overlay (a_hist a) (t_buf t)) k))
+      end
+  | QTxPut h k v =>
+      match a_find a h with
+      | None => (a, PErr ENoTx)
+      | Some (id, t) =>
+        if is_rw t then (a_set_reg a (reg_set id (mkTxr MRW (t_buf t ++ [(k, Some v)])) (a_reg a)), POk)
+        else (a, PErr EROTx)             (* ErrReadOnlyTransaction *)
+      end
+  | QTxDelete h k =>
+      match a_find a h with
+      | None => (a, PErr ENoTx)
+      | Some (id, t) =>
+        if is_rw t then (a_set_reg a (reg_set id (mkTxr MRW (t_buf t ++ [(k, None)])) (a_reg a)), POk)
+        else (a, PErr EROTx)
+      end
+  | QTxScan h o =>
+      match a_find a h with
+      | None => (a, PErr ENoTx)
+      | Some (_, t) => (a, PRows (spec_rows (a_hist a) (t_buf t) o))
+      end
+  | QStats =>                            (* key count and size over a read-only scan; the layer counts the
+                                            service cannot see are 0 *)
+      if a_rw_open a then (a, PBlocked)
+      else let rows := spec_rows (a_hist a) [] (mkScan [] [] [] [] 0) in
+           (a, PStats (N.of_nat (length rows)) (rows_size rows) 0 0)
+  | QCompact _ => if a_any_open a then (a, PBlocked) else (a, POk)     (* maintenance never changes the data *)
+  | QNodeInfo =>
+      match a_info a with
+      | None => (a, PInfo 0 [] [] 0 false)
+      | Some p => (a, PInfo (role_code (p_role p)) (p_primary p) (p_replicas p) (p_seq p) (p_ro p))
+      end
+  end.
+
+(* what the service puts in front of the embedded operation: the transport's size check, the
+   key / value / batch limits, the lookup of the handle. None = the request is let through. *)
+Definition admit (L : limits) (ss : sstate) (q : request) : option err :=
+  if negb (fits L q) then Some EMsg else
+  match q with
+  | QGet k | QDelete k _ => if valid_key L k then None else Some EKey
+  | QPut k v _ => if negb (valid_key L k) then Some EKey else if negb (valid_val L v) then Some EValue else None
+  | QBatch ops _ =>
+      match ops with
+      | [] => None
+      | _ => if max_batch L <? N.of_nat (length ops) then Some EBatch
+             else if any_open ss then None     (* waits for the lock before it looks at the operations *)
+             else match batch_ops L ops [] with inr e => Some e | inl _ => None end
+      end
+  | QCommit h | QRollback h | QTxScan h _ =>
+      match lookup_h ss h with None => Some ENoTx | Some _ => None end
+  | QTxGet h k =>
+      match lookup_h ss h with None => Some ENoTx | Some _ => if valid_key L k then None else Some EKey end
+  | QTxPut h k v =>
+      match lookup_h ss h with
+      | None => Some ENoTx
+      | Some (_, t) => if negb (is_rw t) then None
+                       else if negb (valid_key L k) then Some EKey
+                       else if negb (valid_val L v) then Some EValue else None
+      end
+  | QTxDelete h k =>
+      match lookup_h ss h with
+      | None => Some ENoTx
+      | Some (_, t) => if negb (is_rw t) then None else if negb (valid_key L k) then Some EKey else None
+      end
+  | _ => None
+  end.
+
+(* the abstraction: the history the engine has acknowledged, the registry as it is *)
+Definition abs (c : config) (tr : list op) (ss : sstate) : astate :=
+  mkAS (acked (init c) tr) (s_reg ss) (s_next ss) (s_info ss).
+
+Lemma acked_app : forall a b s, acked s (a ++ b) = acked s a ++ acked (fold_left step a s) b.
+Proof.
+  induction a as [|o r IH]; intros b s; [reflexivity|]. cbn [app acked fold_left].
+  rewrite IH, app_assoc. reflexivity.
+Qed.
+
+Lemma acked_snoc : forall c tr e,
+  acked (init c) (tr ++ e) = acked (init c) tr ++ acked (run c tr) e.
+Proof. intros. apply acked_app. Qed.
+
+Lemma run_snoc : forall c tr e, run c (tr ++ e) = fold_left step e (run c tr).
+Proof. intros. unfold run. apply fold_left_app. Qed.
+
+Lemma batch_ops_ok : forall L ops acc b, batch_ops L ops acc = inl b -> b = acc ++ map bop_of ops.
+Proof.
+  intros L ops. induction ops as [|o r IH]; intros acc b H; cbn [batch_ops] in H.
+  - inversion H. rewrite app_nil_r. reflexivity.
+  - destruct (negb (valid_key L (bw_key o))); [discriminate|]. cbn [map]. unfold bop_of at 1.
+    destruct (bw_type o =? 0).
+    + destruct (valid_val L (bw_val o)); [|discriminate]. apply IH in H. rewrite H, <- app_assoc. reflexivity.
+    + destruct (bw_type o =? 1); [|discriminate]. apply IH in H. rewrite H, <- app_assoc. reflexivity.
+Qed.
+
+Lemma put_ok : forall s k v, (MaxSeq <=? wal_next s) = false -> exists q, snd (put s k v) = WrOk q.
+Proof. intros s k v M. unfold put. rewrite M. eexists. reflexivity. Qed.
+
+Lemma del_ok : forall s k, (MaxSeq <=? wal_next s) = false -> exists q, snd (del s k) = WrOk q.
+Proof. intros s k M. unfold del. rewrite M. eexists. reflexivity. Qed.
+
+Lemma tx_commit_ok : forall s b, (MaxSeq <=? wal_next s) = false -> exists q, snd (tx_commit s b) = WrOk q.
+Proof.
+  intros s b M. unfold tx_commit. destruct (buffer_ops b) as [|o r]; [eexists; reflexivity|].
+  rewrite apply_batch_ok by (assumption || discriminate). eexists. reflexivity.
+Qed.
+
+Lemma acked_commit : forall s b, (MaxSeq <=? wal_next s) = false -> acked s [OCommit b] = commit_w b.
+Proof.
+  intros s b M. cbn [acked ack1]. rewrite app_nil_r. unfold commit_w.
+  destruct (tx_commit_ok s b M) as (q & E). rewrite E. destruct (buffer_ops b); reflexivity.
+Qed.
+
+Lemma buf_last_spec : forall k l, buf_last k l = last_effect k l.
+Proof.
+  intros k l. induction l as [|[k' v] r IH]; [reflexivity|]. cbn [buf_last last_effect fst snd]. rewrite IH. reflexivity.
+Qed.
+
+(* a transaction read = the latest write of the history with the buffer on top *)
+Lemma tx_read_spec : forall c tr buf k, lost_log (run c tr) = false ->
+  tx_read (run c tr) buf k = spec_get (overlay (acked (init c) tr) buf) k.
+Proof.
+  intros c tr buf k Hl. unfold tx_read, spec_get. rewrite latest_overlay, buf_last_spec.
+  destruct (last_effect k buf) as [[v|]|]; try reflexivity.
+  rewrite (C01_read_latest c tr k Hl). reflexivity.
+Qed.
+
+Lemma spec_get_flat : forall h1 h2 k, flat h1 = flat h2 -> spec_get h1 k = spec_get h2 k.
+Proof. intros h1 h2 k E. unfold spec_get, latest. rewrite E. reflexivity. Qed.
+
+Lemma scan_rows_full : forall s, scan_rows s [] (mkScan [] [] [] [] 0) = scan tx_it 0 (tx_full s []).
+Proof. reflexivity. Qed.
+
+Ltac same_abs := unfold abs; cbn; rewrite ?app_nil_r; reflexivity.
+
+(* C19_simulation, one step. On a state whose engine ran the program tr (no log set aside, the
+   sequence numbers not exhausted), a request is either turned away by what the service adds —
+   with an error and no change — or answered exactly as the embedded specification answers it
+   on the history acknowledged so far, and the two states correspond again. Compact(force) is
+   the exception (compact_force_refuted). *)
+Theorem simulation_step : forall L c tr ss q,
+  s_eng ss = run c tr -> lost_log (run c tr) = false -> (MaxSeq <=? wal_next (s_eng ss)) = false ->
+  q <> QCompact true ->
+  match admit L ss q with
+  | Some e => service_step L ss q = (ss, PErr e)
+  | None =>
+      s_eng (fst (service_step L ss q)) = run c (tr ++ eops L ss (SReq q)) /\
+      embedded_step (abs c tr ss) q =
+        (abs c (tr ++ eops L ss (SReq q)) (fst (service_step L ss q)), snd (service_step L ss q))
+  end.
+Proof.
+  intros L c tr ss q He Hl M Hq.
+  assert (Eng : s_eng (fst (service_step L ss q)) = run c (tr ++ eops L ss (SReq q))).
+  { rewrite run_snoc, <- He. pose proof (sstep_eng L ss (SReq q)) as S. cbn [sstep] in S.
+    destruct (service_step L ss q). exact S. }
+  unfold admit. unfold service_step in *. cbn [eops] in *.
+  destruct (fits L q) eqn:F; cbn [negb] in *; [|reflexivity].
+  destruct q as [k|k v s|k s|ops s|o|ro|h|h|h k|h k v|h k|h o| |f|]; cbn [handler embedded_step] in *.
+  - (* Get *) destruct (valid_key L k); [|reflexivity]. split; [exact Eng|].
+    rewrite He, (C01_read_latest c tr k Hl). same_abs.
+  - (* Put *) destruct (valid_key L k); cbn [negb andb] in *; [|reflexivity].
+    destruct (valid_val L v); cbn [negb] in *; [|reflexivity]. split; [exact Eng|].
+    unfold eng_write, abs, a_write. cbn [fst snd s_reg s_next s_info set_eng a_hist a_reg a_next a_info].
+    rewrite acked_snoc. cbn [acked ack1]. rewrite <- He. destruct (put_ok (s_eng ss) k v M) as (q & E).
+    rewrite E, app_nil_r. reflexivity.
+  - (* Delete *) destruct (valid_key L k); cbn [negb] in *; [|reflexivity]. split; [exact Eng|].
+    unfold eng_write, abs, a_write. cbn [fst snd s_reg s_next s_info set_eng a_hist a_reg a_next a_info].
+    rewrite acked_snoc. cbn [acked ack1]. rewrite <- He. destruct (del_ok (s_eng ss) k M) as (q & E).
+    rewrite E, app_nil_r. reflexivity.
+  - (* BatchWrite *) destruct ops as [|o0 r]; [split; [exact Eng|same_abs]|].
+    destruct (max_batch L <? N.of_nat (length (o0 :: r))); [reflexivity|].
+    unfold a_any_open, abs at 1. cbn [a_reg]. fold (any_open ss).
+    destruct (any_open ss); [split; [exact Eng|same_abs]|].
+    destruct (batch_ops L (o0 :: r) []) as [b|e] eqn:B; [|reflexivity]. split; [exact Eng|].
+    apply batch_ops_ok in B. cbn [app] in B. subst b.
+    unfold eng_write, abs, a_write. cbn [fst snd s_reg s_next s_info set_eng a_hist a_reg a_next a_info].
+    rewrite acked_snoc, <- He, (acked_commit _ _ M).
+    destruct (tx_commit_ok (s_eng ss) (map bop_of (o0 :: r)) M) as (q & E). rewrite E. reflexivity.
+  - (* Scan *) unfold a_rw_open, abs at 1. cbn [a_reg]. fold (rw_open ss).
+    destruct (rw_open ss); [split; [exact Eng|same_abs]|]. split; [exact Eng|].
+    rewrite He, (scan_semantics c tr [] o Hl). same_abs.
+  - (* Begin *) unfold a_rw_open, a_any_open, abs at 1 2. cbn [a_reg]. fold (rw_open ss). fold (any_open ss).
+    destruct (if ro then rw_open ss else any_open ss); split; try exact Eng; same_abs.
+  - (* Commit *) unfold a_find, abs at 1. cbn [a_reg]. unfold lookup_h in *.
+    destruct h as [n|s]; [|reflexivity]. destruct (reg_find n (s_reg ss)) as [t|]; [|reflexivity].
+    split; [exact Eng|]. unfold is_rw in *. destruct (t_mode t).
+    + same_abs.
+    + unfold eng_write, abs, a_write, a_set_reg. cbn [fst snd s_reg s_next s_info set_eng set_reg a_hist a_reg a_next a_info].
+      rewrite acked_snoc, <- He, (acked_commit _ _ M).
+      destruct (tx_commit_ok (s_eng ss) (t_buf t) M) as (q & E). rewrite E. reflexivity.
+  - (* Rollback *) unfold a_find, abs at 1. cbn [a_reg]. unfold lookup_h in *.
+    destruct h as [n|s]; [|reflexivity]. destruct (reg_find n (s_reg ss)) as [t|]; [|reflexivity].
+    split; [exact Eng|same_abs].
+  - (* TxGet *) unfold a_find, abs at 1. cbn [a_reg]. unfold lookup_h in *.
+    destruct h as [n|s]; [|reflexivity]. destruct (reg_find n (s_reg ss)) as [t|]; [|reflexivity].
+    destruct (valid_key L k); [|reflexivity]. split; [exact Eng|].
+    rewrite He, (tx_read_spec c tr (t_buf t) k Hl). same_abs.
+  - (* TxPut *) unfold a_find, abs at 1. cbn [a_reg]. unfold lookup_h in *.
+    destruct h as [n|s]; [|reflexivity]. destruct (reg_find n (s_reg ss)) as [t|]; [|reflexivity].
+    destruct (is_rw t); cbn [negb] in *; [|split; [exact Eng|same_abs]].
+    destruct (valid_key L k); cbn [negb] in *; [|reflexivity].
+    destruct (valid_val L v); cbn [negb] in *; [|reflexivity]. split; [exact Eng|same_abs].
+  - (* TxDelete *) unfold a_find, abs at 1. cbn [a_reg]. unfold lookup_h in *.
+    destruct h as [n|s]; [|reflexivity]. destruct (reg_find n (s_reg ss)) as [t|]; [|reflexivity].
+    destruct (is_rw t); cbn [negb] in *; [|split; [exact Eng|same_abs]].
+    destruct (valid_key L k); cbn [negb] in *; [|reflexivity]. split; [exact Eng|same_abs].
+  - (* TxScan *) unfold a_find, abs at 1. cbn [a_reg]. unfold lookup_h in *.
+    destruct h as [n|s]; [|reflexivity]. destruct (reg_find n (s_reg ss)) as [t|]; [|reflexivity].
+    split; [exact Eng|]. rewrite He, (scan_semantics c tr (t_buf t) o Hl). same_abs.
+  - (* GetStats *) unfold a_rw_open, abs at 1. cbn [a_reg]. fold (rw_open ss).
+    destruct (rw_open ss); [split; [exact Eng|same_abs]|]. split; [exact Eng|].
+    pose proof (scan_semantics c tr [] (mkScan [] [] [] [] 0) Hl) as S.
+    rewrite <- (scan_rows_full (s_eng ss)), He, S. same_abs.
+  - (* Compact *) destruct f; [congruence|]. unfold a_any_open, abs at 1. cbn [a_reg]. fold (any_open ss).
+    destruct (any_open ss); [split; [exact Eng|same_abs]|]. split; [exact Eng|].
+    unfold eng_write, abs. cbn [fst snd s_reg s_next s_info set_eng].
+    rewrite acked_snoc, <- He, (acked_commit _ _ M). unfold commit_w. cbn [buffer_ops fold_left].
+    rewrite app_nil_r. reflexivity.
+  - (* GetNodeInfo *) split; [exact Eng|]. unfold abs at 1. cbn [a_info]. destruct (s_info ss); same_abs.
+Qed.
